@@ -75,6 +75,7 @@ def run_on(pid, root, with_witness=False):
         return None, None, "does not type-check: " + str(e)[-600:]
     prog = facts.load(f["lib"])
     mod.run(ck, prog, {"tier": "quick", "seed": 0, "root": root, "facts": f, "mutant": True})
+    core.apply_private_deps(ck, prog)
     if with_witness:
         import witness
         witness.run(ck, pid, {"root": root})
